@@ -82,7 +82,7 @@ def run(ctx):
     probe = np.zeros((4, 5, 5), np.uint8); probe[1:3, 1:4, 1:4] = 1
     probe2 = probe.copy(); probe2[1:3, 1:4, 3] = 0
     dflt_res0 = canon_out(impl.evaluate(dflt, probe2.copy(), probe.copy()))
-    for _ in range(ctx.scale(25, 300)):
+    for _ in range(ctx.scale(60, 500)):
         cfgs = [gen_cfg(rng, rng.choice(["matched", "unmatched", "semantic"])) for _ in range(rng.randint(1, 3))]
         for c in cfgs:
             c["gmetrics"] = rng.choice([[], ["DSC"], ["DSC", "IOU"]])
